@@ -6,6 +6,7 @@ import (
 	stdjson "encoding/json"
 	"fmt"
 	"reflect"
+	"runtime"
 	"strings"
 
 	gojson "github.com/goccy/go-json"
@@ -230,6 +231,123 @@ var cycles = []cyc{
 	{"recslice-map", func(n int) any { r := &zoo.RecSlice{Name: "r"}; r.MK = map[string]*zoo.RecSlice{"k": r}; return r }},
 }
 
+// c08Huge: flat struct types with 100..400 members (the root frame is longer than the slot area a
+// fresh or an append-grown pooled context starts with), interface and nested-struct members late
+// in the layout, encoded right after a value whose nested interfaces made the pooled context grow.
+func c08Huge(c *rt.Ctx, sub0 int, interps []c08Interp) {
+	kinds := []reflect.Type{reflect.TypeOf(0), reflect.TypeOf(""), reflect.TypeOf((*any)(nil)).Elem(), reflect.TypeOf([]int(nil)), reflect.TypeOf(map[string]int(nil)), reflect.TypeOf((*int)(nil)),
+		reflect.TypeOf(struct {
+			A any
+			B int
+		}{}), reflect.TypeOf(1.5), reflect.TypeOf(false), reflect.TypeOf([]any(nil))}
+	for ni, n := range []int{60, 100, 127, 130, 141, 200, 260, 400} {
+		fs := make([]reflect.StructField, n)
+		for i := range fs {
+			fs[i] = reflect.StructField{Name: fmt.Sprintf("F%03d", i), Type: kinds[(i*7+ni)%len(kinds)]}
+		}
+		t := reflect.StructOf(fs)
+		v := reflect.New(t).Elem()
+		for i := 0; i < n; i++ {
+			f := v.Field(i)
+			switch f.Kind() {
+			case reflect.Int:
+				f.SetInt(int64(i))
+			case reflect.String:
+				f.SetString(fmt.Sprint("s", i))
+			case reflect.Interface:
+				f.Set(reflect.ValueOf(map[string]any{"i": i, "l": []any{i, "x"}}))
+			case reflect.Slice:
+				if f.Type().Elem().Kind() == reflect.Int {
+					f.Set(reflect.ValueOf([]int{i, i + 1}))
+				} else {
+					f.Set(reflect.ValueOf([]any{i, nil, "y"}))
+				}
+			case reflect.Map:
+				f.Set(reflect.ValueOf(map[string]int{"k": i}))
+			case reflect.Ptr:
+				x := i
+				f.Set(reflect.ValueOf(&x))
+			case reflect.Struct:
+				f.Field(0).Set(reflect.ValueOf([]any{"in", i}))
+				f.Field(1).SetInt(int64(i))
+			case reflect.Float64:
+				f.SetFloat(float64(i) + 0.5)
+			case reflect.Bool:
+				f.SetBool(i%2 == 0)
+			}
+		}
+		for _, grow := range []int{0, 3, 13, 40} {
+			sub := sub0 + ni*10 + grow%10
+			if !c.Cur(sub, fmt.Sprintf("shapes=core\nflat struct of %d members after a %d-deep interface nest", n, grow)) {
+				continue
+			}
+			// make the pooled context grow (or not) first
+			if grow > 0 {
+				rt.Guard(func() { gojson.Marshal(nestedIface(grow)); gojson.MarshalIndent(nestedIface(grow), "", " ") })
+				gojson.VerifSlotTake()
+			}
+			c08Run(c, sub, v.Interface(), t, "", interps, false)
+			c08Run(c, sub, v.Addr().Interface(), reflect.PtrTo(t), "", interps[:2], false)
+			got, gerr := gojson.Marshal(v.Interface())
+			want, _ := stdjson.Marshal(v.Interface())
+			c.Eval(1)
+			if gerr != nil || string(got) != string(want) {
+				c.Violate(rt.Violation{Monitor: "enc-safety", Entry: "vm", Kind: "huge-struct-output-differs", Ctx: fmt.Sprintf("members=%d", n), Detail: fmt.Sprintf("err %v; first difference at %d of %d bytes", gerr, firstDiff(got, want), len(want)), Sub: sub})
+			}
+			c.NonTrivial("huge", fmt.Sprint(n, grow))
+		}
+	}
+	// fresh pooled contexts (two collections empty the pool), grown by a nest of every depth before a
+	// flat struct of mostly integers with an interface-holding struct at the end: the struct's frame
+	// length then falls between the length and the capacity the slot area was left with
+	type tailT struct {
+		X any
+		Y int
+	}
+	for ni, n := range []int{112, 125, 131, 137, 141, 150, 176, 230} {
+		fs := make([]reflect.StructField, n)
+		for i := range fs {
+			fs[i] = reflect.StructField{Name: fmt.Sprintf("F%03d", i), Type: reflect.TypeOf(0)}
+		}
+		fs[n-1] = reflect.StructField{Name: "Tail", Type: reflect.TypeOf(tailT{})}
+		if ni%4 == 3 {
+			// (an earlier interface member grows the slot area before the last one is reached)
+			fs[n/2] = reflect.StructField{Name: "Mid", Type: reflect.TypeOf(tailT{})}
+		}
+		t := reflect.StructOf(fs)
+		v := reflect.New(t).Elem()
+		for i := 0; i < n; i++ {
+			if v.Field(i).Kind() == reflect.Int {
+				v.Field(i).SetInt(int64(i))
+			} else {
+				v.Field(i).Set(reflect.ValueOf(tailT{X: []any{"x", i}, Y: 7}))
+			}
+		}
+		{
+			want, _ := stdjson.Marshal(v.Interface())
+			for grow := 1; grow <= 40; grow++ {
+				sub := sub0 + 200 + ni*50 + grow
+				if !c.Cur(sub, fmt.Sprintf("shapes=core\nflat struct of %d members on a fresh context grown by a %d-deep nest", n, grow)) {
+					continue
+				}
+				runtime.GC()
+				runtime.GC()
+				rt.Guard(func() { gojson.Marshal(nestedIface(grow)) })
+				gojson.VerifSlotTake()
+				c08Run(c, sub, v.Addr().Interface(), reflect.PtrTo(t), "", interps[:1], false)
+				var got []byte
+				var gerr error
+				pan, msg, _ := rt.Guard(func() { got, gerr = gojson.Marshal(v.Interface()) })
+				c.Eval(1)
+				if pan || gerr != nil || string(got) != string(want) {
+					c.Violate(rt.Violation{Monitor: "enc-safety", Entry: "vm", Kind: "huge-struct-output-differs", Ctx: fmt.Sprintf("members=%d:fresh-context", n), Detail: fmt.Sprintf("after a %d-deep nest: err %v panic %v %s; first difference at %d of %d bytes", grow, gerr, pan, msg, firstDiff(got, want), len(want)), Sub: sub})
+				}
+			}
+		}
+	}
+	c.Obs("huge_struct_cases", 32)
+}
+
 func init() {
 	register(&Prop{
 		ID: "C08",
@@ -357,6 +475,9 @@ func init() {
 					c.Obs("gc_callback_values", 1)
 				}
 				c08StackResident(c, 100)
+				if k == 18 {
+					c08Huge(c, 500, interps)
+				}
 				c.Sample(map[string]any{"family": "GC/stack-growth callbacks", "values": 12, "stack_resident_entry_points": len(stackEntries)})
 			}
 		},
